@@ -64,9 +64,11 @@ package frugal
 //@   ensures result != nil && fresh(result)
 //@   modifies alloc
 
+// The context handed to a handler is a new object carrying a fresh op id of its own.
 //@ func lib.FProtocol.ReadRequestHeader
 //@   ensures err == nil ==> result != nil
 //@   ensures err != nil ==> result == nil
+//@   ensures err == nil ==> typeis(result, "*lib.FContextImpl") && fresh(cast(result, "lib.FContextImpl")) && ncalls("lib.getNextOpID") == 1
 //@   modifies *
 
 //@ func lib.FProtocol.ReadResponseHeader
@@ -314,3 +316,96 @@ package frugal
 //@ func lib.prependFrameSize
 //@   ensures len(result) == len(buf) + 4 && u32be(result, 0) == len(buf) % 4294967296
 //@   modifies alloc
+
+// ---- FContext (C17, C09) --------------------------------------------------------------------------------
+
+//@ guard lib.FContextImpl.mu protects requestHeaders, responseHeaders, ephemeralProperties
+//@   invariant self.requestHeaders != nil && self.responseHeaders != nil
+
+// One counter, bumped atomically; the id is its decimal representation.
+//@ func lib.getNextOpID
+//@   ensures nextOpID == (old(nextOpID) + 1) % 18446744073709551616
+//@   ensures result == fmtuint(nextOpID, 10)
+//@   modifies heap(G!)
+
+//@ pred reqH(c) = cast(c, "lib.FContextImpl").requestHeaders
+//@ pred respH(c) = cast(c, "lib.FContextImpl").responseHeaders
+
+//@ func lib.NewFContext
+//@   ensures result != nil && typeis(result, "*lib.FContextImpl") && fresh(cast(result, "lib.FContextImpl"))
+//@   ensures ncalls("lib.getNextOpID") == 1
+//@   ensures has(reqH(result), "_opid") && reqH(result)["_opid"] == callret("lib.getNextOpID", 0, 0)
+//@   ensures fresh(reqH(result)) && fresh(respH(result)) && reqH(result) != respH(result)
+//@   modifies *
+
+// Accessors hand out fresh copies: same keys, same values, different map.
+//@ func lib.FContextImpl.RequestHeaders
+//@   ensures result != nil && fresh(result) && dom(result) == dom(c.requestHeaders)
+//@   ensures forallkey(k, has(result, k) ==> result[k] == c.requestHeaders[k])
+//@   modifies alloc
+//@   loop 0 invariant headers != nil && fresh(headers) && c == c0 && dom(headers) == visited(c.requestHeaders)
+//@   loop 0 invariant forallkey(k, has(headers, k) ==> headers[k] == c.requestHeaders[k])
+//@   loop 0 invariant dom(c.requestHeaders) == loopentry(dom(c.requestHeaders)) && vals(c.requestHeaders) == loopentry(vals(c.requestHeaders))
+
+//@ func lib.FContextImpl.ResponseHeaders
+//@   ensures result != nil && fresh(result) && dom(result) == dom(c.responseHeaders)
+//@   ensures forallkey(k, has(result, k) ==> result[k] == c.responseHeaders[k])
+//@   modifies alloc
+//@   loop 0 invariant headers != nil && fresh(headers) && c == c0 && dom(headers) == visited(c.responseHeaders)
+//@   loop 0 invariant forallkey(k, has(headers, k) ==> headers[k] == c.responseHeaders[k])
+//@   loop 0 invariant dom(c.responseHeaders) == loopentry(dom(c.responseHeaders)) && vals(c.responseHeaders) == loopentry(vals(c.responseHeaders))
+
+//@ func lib.FContextImpl.EphemeralProperties
+//@   ensures result != nil && fresh(result)
+//@   modifies alloc
+//@   loop 0 invariant properties != nil && fresh(properties) && c == c0
+
+// A clone has its own maps, equal to the original's except for a fresh op id.
+//@ func lib.FContextImpl.Clone
+//@   ensures result != nil && typeis(result, "*lib.FContextImpl") && fresh(cast(result, "lib.FContextImpl"))
+//@   ensures ncalls("lib.getNextOpID") == 1
+//@   ensures reqH(result)["_opid"] == callret("lib.getNextOpID", 0, 0) && has(reqH(result), "_opid")
+//@   ensures fresh(reqH(result)) && fresh(respH(result))
+//@   ensures reqH(result) != c.requestHeaders && respH(result) != c.responseHeaders
+//@   ensures reqH(result) != respH(result)
+//@   ensures forallkey(k, k != "_opid" ==> has(reqH(result), k) == has(c.requestHeaders, k) && (has(c.requestHeaders, k) ==> reqH(result)[k] == c.requestHeaders[k]))
+//@   ensures dom(respH(result)) == dom(c.responseHeaders) && forallkey(k, has(c.responseHeaders, k) ==> respH(result)[k] == c.responseHeaders[k])
+//@   modifies *
+
+// The free function Clone does the same for any FContext.
+//@ func lib.Clone
+//@   ensures result != nil
+//@   modifies *
+
+// Mutators change exactly one entry of one map of the receiver, under the write lock, and return the
+// receiver itself.
+//@ func lib.FContextImpl.AddRequestHeader
+//@   noescape
+//@   ensures typeis(result, "*lib.FContextImpl") && cast(result, "lib.FContextImpl") == c
+//@   ensures has(c.requestHeaders, name) && c.requestHeaders[name] == value
+//@   modifies mapof(c.requestHeaders), alloc
+
+//@ func lib.FContextImpl.AddResponseHeader
+//@   noescape
+//@   ensures typeis(result, "*lib.FContextImpl") && cast(result, "lib.FContextImpl") == c
+//@   ensures has(c.responseHeaders, name) && c.responseHeaders[name] == value
+//@   modifies mapof(c.responseHeaders), alloc
+
+//@ func lib.FContextImpl.CorrelationID
+//@   noescape
+//@   ensures result == c.requestHeaders["_cid"] || (!has(c.requestHeaders, "_cid") && result == "")
+
+//@ func lib.setResponseOpID
+//@   noescape
+//@   modifies *
+
+//@ iface lib.FContextWithEphemeralProperties.Clone
+//@   same_as lib.FContextImpl.Clone
+
+// FContextImpl is the module's only FContext implementation; calls through the interface use its contracts.
+//@ iface lib.FContext.AddRequestHeader
+//@   same_as lib.FContextImpl.AddRequestHeader
+//@ iface lib.FContext.AddResponseHeader
+//@   same_as lib.FContextImpl.AddResponseHeader
+//@ iface lib.FContext.CorrelationID
+//@   same_as lib.FContextImpl.CorrelationID
